@@ -159,8 +159,16 @@ impl Cache for MemoryStore {
 
     fn flush(&self, header: CacheMetaData) {
         if header.time_to_live > 0 {
+            // every item dies `time_to_live` seconds from now at the latest;
+            // an item whose own deadline is earlier keeps it
+            let now = self.timer.timestamp();
+            let deadline = now + header.time_to_live as u64;
             self.memory.alter_all(|_key, mut value| {
-                value.header.time_to_live = header.time_to_live;
+                let own_deadline = value.header.timestamp + value.header.time_to_live as u64;
+                if value.header.time_to_live == 0 || own_deadline > deadline {
+                    value.header.timestamp = now;
+                    value.header.time_to_live = header.time_to_live;
+                }
                 value
             });
         } else {
